@@ -17,8 +17,38 @@ float nondet_float(void);
 _Bool nondet_bool(void);
 void *nondet_ptr(void);
 
+/* ND(T, name, kind): a symbolic input.  Under cbmc it is nondeterministic; in a native replay build
+   (-DVERIF_NATIVE) it takes the value cbmc's counterexample gave to the variable of that name. */
+#ifndef VERIF_NATIVE
+#define ND(T, name, kind) T name = (T)nondet_##kind()
+#define ND_SET(lhs, name, kind) lhs = nondet_##kind()
+#else
+#include "replay/rp.h"
+#include <stdio.h>
+static int verif_failed;
+static double rp_nd_double(const char *n) { return rp_f64(n, 0); }
+static float rp_nd_float(const char *n) { return (float)rp_f64(n, 0); }
+static unsigned long rp_nd_u64(const char *n) { return rp_u64(n, 0); }
+static unsigned int rp_nd_u32(const char *n) { return (unsigned int)rp_u64(n, 0); }
+static unsigned short rp_nd_u16(const char *n) { return (unsigned short)rp_u64(n, 0); }
+static unsigned char rp_nd_u8(const char *n) { return (unsigned char)rp_u64(n, 0); }
+static int rp_nd_int(const char *n) { return (int)rp_i64(n, 0); }
+static long rp_nd_long(const char *n) { return (long)rp_i64(n, 0); }
+static size_t rp_nd_size(const char *n) { return (size_t)rp_u64(n, 0); }
+static _Bool rp_nd_bool(const char *n) { return rp_u64(n, 0) != 0; }
+#define ND(T, name, kind) T name = (T)rp_nd_##kind(#name)
+#define ND_SET(lhs, name, kind) lhs = rp_nd_##kind(#name)
+#define VERIF_CANARY() do { if (verif_failed) { printf("REPLAY CONFIRMED: the real code violates the obligation(s) above for the counterexample input\n"); } } while (0)
+#define ASSUME(c) do { if (!(c)) { printf("replay input does not satisfy the precondition %s\n", #c); exit(0); } } while (0)
+#define ASSERT(c, msg) do { if (!(c)) { printf("OBLIGATION VIOLATED: %s\n", msg); verif_failed = 1; } } while (0)
+void VERIF_ENTRY(void);
+int main(int argc, char **argv) { rp_init(argc, argv); VERIF_ENTRY(); return verif_failed; }
+#endif
+
+#ifndef VERIF_NATIVE
 /* vacuity guard: must be reachable (is expected to FAIL); placed after the call under contract */
 #define VERIF_CANARY() __CPROVER_assert(0, "VERIF_CANARY reachable")
 #define ASSUME(c) __CPROVER_assume(c)
 #define ASSERT(c, msg) __CPROVER_assert((c), msg)
+#endif /* !VERIF_NATIVE */
 #endif
